@@ -332,9 +332,9 @@ def corpus():
                   ops=[dict(k="after", x=F1(0), incl=True, dflt=False), dict(k="slice", a=None, b=None, c=0)], probes=[0, -1]))
     c.append(dict(claim="history", cls="HoldList", init=dict(how="frame", labels=[], rows=[]),
                   ops=[dict(k="sorted", rev=False, dflt=False)], probes=[0]))
-    c.append(dict(claim="fields", cls="OsuSvList", init=dict(how="items", kws=[dict(offset=F1(1))]), _expect="D1601"))
+    c.append(dict(claim="fields", cls="OsuSvList", init=dict(how="items", kws=[dict(offset=F1(1))]), _expect="D34"))
     c.append(dict(claim="fields", cls="QuaHitList", init=dict(how="dict", cols=dict(offset=[F1(1)], column=[1])),
-                  _expect="D1602"))
+                  _expect="D24-fixed"))
     c.append(dict(claim="fields", cls="HoldList", init=dict(how="dict", cols=dict(offset=[F1(1)], foo=[1]))))
     return c
 
@@ -704,14 +704,12 @@ def run_fields(case, drv):
     kf = None
     dom = True
     if name == "OsuSvList" and how == "items" and init["kws"]:
-        dom = False                # D1601: OsuSv items carry an undeclared 'metronome'
+        dom = False                # D34: OsuSv items carry an undeclared 'metronome'
         if not ok and "ok" in impl and set(impl["ok"]["cols"]) - set(declared) == {"metronome"} \
                 and len(impl["ok"]["rows"]) == want:
-            kf = "D1601"
-    if how == "dict" and not undeclared and want > 0 and any(k not in init["cols"] for k in list_default_fields(inf)) and init["cols"]:
-        dom = False                # D1602: from_dict cannot fill a list-valued default
-        if not ok and impl.get("err") == "value":
-            kf = "D1602"
+            kf = "D34"
+    if how == "dict" and not undeclared and want > 0 and any(k not in init["cols"] for k in list_default_fields(inf)):
+        tags.append("list-default-filled")     # the D24 situation (repaired): from_dict fills one fresh list per row
     if not (ok and agree):
         detail = dict(impl=impl, model=m, declared=declared)
     return dict(claim="fields", ok=ok, agree=agree, dom=dom, kf=kf, tags=tags, nontrivial=how != "nil", detail=detail)
